@@ -1,5 +1,6 @@
 import PkgProofs.Lemmas.LicWords
 import PkgProofs.Lemmas.LicParse
+import PkgProofs.Lemmas.LicRender
 /-!
 # The implementation's two loops are the one-pass machine, and their output is the statement's canonical tokens
 -/
@@ -194,7 +195,7 @@ theorem norm_eq (ws : List Str) (hok : ∀ w ∈ ws, TokOK w) (prev : Option Str
     (hp : (prev == some kWithU) = aw) (r : List Str)
     (h : normGo (ws.zip (ws.map lowerStr)) prev = some r) : r = canonToks (ws.map tokOf) aw := by
   induction ws generalizing prev aw r with
-  | nil => simp [normGo] at h; simp [h, canonToks]
+  | nil => simp [normGo] at h; simp [h, canonToks, canonWords]
   | cons w ws ih =>
     have hok' : ∀ w ∈ ws, TokOK w := fun x hx => hok x (List.mem_cons_of_mem _ hx)
     rw [zip_cons] at h
@@ -264,7 +265,7 @@ theorem norm_eq (ws : List Str) (hok : ∀ w ∈ ws, TokOK w) (prev : Option Str
           | some r' =>
             simp only [hn, Option.map_some, Option.some.injEq] at h
             rw [← h, ih hok' _ false (canonException_ne hc) r' hn]
-            simp [canonToks, hc]
+            simp [canonToks, canonWords, spell, hc]
       | false =>
         rw [normWord_simple prev w hp hw] at h
         cases hc : canonSimple w with
@@ -276,6 +277,129 @@ theorem norm_eq (ws : List Str) (hok : ∀ w ∈ ws, TokOK w) (prev : Option Str
           | some r' =>
             simp only [hn, Option.map_some, Option.some.injEq] at h
             rw [← h, ih hok' _ false (canonSimple_ne hc) r' hn]
-            simp [canonToks, hc]
+            simp [canonToks, canonWords, spell, hc]
+
+end LicM
+
+namespace LicM
+open Py Lic Spdx LicL LicW LicP LicR
+
+/-! ### canonical spellings are again well-shaped words -/
+
+theorem idChar_ok {c : Nat} (h : C19.idChar c = true) : Lic.isSpace c = false ∧ c ≠ 40 ∧ c ≠ 41 := by
+  simp only [C19.idChar, isAlnumAscii, isDigit, isAlphaAscii, isLowerAscii, isUpperAscii, Bool.or_eq_true,
+    Bool.and_eq_true, decide_eq_true_eq, beq_iff_eq] at h
+  refine ⟨?_, by omega, by omega⟩
+  cases hs : Lic.isSpace c with
+  | false => rfl
+  | true => have := isSpace_mem hs; omega
+
+theorem official_wordOK {tbl : List Gen.SpdxTables.Entry} (ht : tbl.all C19.entryOk = true) {w id : Str}
+    (h : officialId tbl w = some id) : WordOK id := by
+  have := official_not_op ht h
+  exact ⟨this.2.2.2.1, fun c hc => idChar_ok (List.all_eq_true.mp this.2.2.2.2.1 c hc)⟩
+
+theorem canonException_ok {w id : Str} (h : canonException w = some id) : WordOK id :=
+  official_wordOK C19.exceptions_entries_ok h
+
+theorem canonSimple_ok {w id : Str} (hw : WordOK w) (h : canonSimple w = some id) : WordOK id := by
+  unfold canonSimple at h
+  split at h
+  · simp only [Option.some.injEq] at h
+    subst h
+    refine ⟨by simp [sRef], fun c hc => ?_⟩
+    rcases List.mem_append.mp hc with h1 | h1
+    · simp only [sRef, List.mem_cons, List.not_mem_nil, or_false] at h1
+      refine ⟨?_, by omega, by omega⟩
+      cases hs : Lic.isSpace c with
+      | false => rfl
+      | true => have := isSpace_mem hs; omega
+    · exact hw.2 c (List.mem_of_mem_drop h1)
+  · split at h
+    · rename_i id' hoff
+      simp only [Option.some.injEq] at h; subst h
+      exact official_wordOK C19.licenses_entries_ok hoff
+    · split at h
+      · cases hoff : officialId Gen.SpdxTables.licenses w.dropLast with
+        | none => simp [hoff] at h
+        | some id' =>
+          simp only [hoff, Option.map_some, Option.some.injEq] at h
+          subst h
+          have := official_wordOK C19.licenses_entries_ok hoff
+          refine ⟨by simp, fun c hc => ?_⟩
+          rcases List.mem_append.mp hc with h1 | h1
+          · exact this.2 c h1
+          · simp only [List.mem_singleton] at h1; subst h1
+            exact ⟨by decide, by decide, by decide⟩
+      · simp at h
+
+theorem wordOK_ctok {x : Str} (h : TokOK x) : CTok x := by
+  rcases h with h | h | h
+  · exact Or.inl h
+  · exact Or.inr (Or.inl h)
+  · refine Or.inr (Or.inr ⟨h.1, fun c hc => ⟨?_, (h.2 c hc).2.1, (h.2 c hc).2.2⟩⟩)
+    intro h32; subst h32
+    have := (h.2 32 hc).1
+    rw [isSpace_32] at this; exact Bool.noConfusion this
+
+/-- every token the look-up loop emits is a parenthesis or a well-shaped word -/
+theorem norm_ok (ws : List Str) (hok : ∀ w ∈ ws, TokOK w) (prev : Option Str) (r : List Str)
+    (h : normGo (ws.zip (ws.map lowerStr)) prev = some r) : ∀ x ∈ r, TokOK x := by
+  induction ws generalizing prev r with
+  | nil => simp [normGo] at h; subst h; simp
+  | cons w ws ih =>
+    have hok' : ∀ w ∈ ws, TokOK w := fun x hx => hok x (List.mem_cons_of_mem _ hx)
+    rw [zip_cons] at h
+    simp only [normGo] at h
+    split at h
+    · rename_i hg
+      cases hn : normGo (ws.zip (ws.map lowerStr)) (some (upperOp (lowerStr w))) with
+      | none => simp [hn] at h
+      | some r' =>
+        simp only [hn, Option.map_some, Option.some.injEq] at h
+        subst h
+        intro x hx
+        rcases List.mem_cons.mp hx with h1 | h1
+        · subst h1
+          simp only [isGrammar, Bool.or_eq_true, beq_iff_eq] at hg
+          rcases hg with (((hg | hg) | hg) | hg) | hg <;> rw [hg]
+          · exact Or.inr (Or.inr ⟨by decide, by decide⟩)
+          · exact Or.inr (Or.inr ⟨by decide, by decide⟩)
+          · exact Or.inr (Or.inr ⟨by decide, by decide⟩)
+          · exact Or.inl rfl
+          · exact Or.inr (Or.inl rfl)
+        · exact ih hok' _ _ hn x h1
+    · rename_i hg
+      have hwok : WordOK w := by
+        cases tok_cases (hok w List.mem_cons_self) with
+        | lp hw => subst hw; exact absurd rfl hg
+        | rp hw => subst hw; exact absurd rfl hg
+        | and hw _ => exact hw
+        | or hw _ => exact hw
+        | «with» hw _ => exact hw
+        | word hw => exact hw
+      cases hnw : normWord prev w (lowerStr w) with
+      | none => simp [hnw] at h
+      | some id =>
+        simp only [hnw] at h
+        cases hn : normGo (ws.zip (ws.map lowerStr)) (some id) with
+        | none => simp [hn] at h
+        | some r' =>
+          simp only [hn, Option.map_some, Option.some.injEq] at h
+          subst h
+          intro x hx
+          rcases List.mem_cons.mp hx with h1 | h1
+          · subst h1
+            refine Or.inr (Or.inr ?_)
+            cases hp : (prev == some kWithU) with
+            | true =>
+              have : prev = some kWithU := by simpa using hp
+              subst this
+              rw [normWord_exc] at hnw
+              exact canonException_ok hnw
+            | false =>
+              rw [normWord_simple prev w hp hwok] at hnw
+              exact canonSimple_ok hwok hnw
+          · exact ih hok' _ _ hn x h1
 
 end LicM
